@@ -125,6 +125,11 @@ func runBatchCase(t *testing.T, sc *BatchSc, qp func(x *batchExec) string) (x *b
 			r0 := ref.run()
 			live := *sc
 			live.DeadlineMs = int(r0.Finished/time.Millisecond) + 1 + sc.LiveSlackMs
+			if sc.C > 0 {
+				// with several workers the start order - and with it the virtual duration of a run
+				// with retry waits - may legitimately depend on the scheduler: stay clear of any ordering
+				live.DeadlineMs = 2*int(r0.Finished/time.Millisecond) + sc.budget()*sc.WaitMs*(sc.n()+1) + 1000
+			}
 			x = newBatchExec(&live)
 		} else {
 			x = newBatchExec(sc)
@@ -137,7 +142,7 @@ func runBatchCase(t *testing.T, sc *BatchSc, qp func(x *batchExec) string) (x *b
 				sawPrep = true
 			}
 		}
-		if !sawPrep && br.Panic == "" {
+		if !sawPrep && br.Panic == "" && br.Err == nil {
 			// the harness installs its prep/fallback callbacks by replacing the batch node's
 			// embedded CustomNode; if an implementation ignores that, nothing can be observed
 			br.Panic = "HARNESS-INCONCLUSIVE: the batch node never called the harness's prep callback (callbacks could not be installed)"
